@@ -88,7 +88,7 @@ def rule_a(ctx, R):
                     pl = rv.get(key)
                     if pl and pl["l"] == rd["slice_arg"] and pl["p"] and any(e["k"] in ("index", "constindex", "subslice") for e in pl["p"]):
                         bad.append(pat.where(st))
-    ctx.ob("C14-a", "in sample the slice parameter is used only as the reader constructor's argument (%d uses)" % n_use, not bad and n_use == 1,
+    ctx.ob("C14-a", "in sample the slice parameter is used only as the reader constructor's argument (%d uses)" % n_use, not bad and n_use == 1 and rd.get("ctor_calls", 1) == 1,
            s.path, "slice-only-into-reader", detail="other uses at %s" % bad)
     # field census
     adt = rd["adt"]
